@@ -156,7 +156,11 @@ func runControls(repo, prop string) []ControlResult {
 			if _, ok := base[k]; ok {
 				continue
 			}
-			fresh = append(fresh, k+" ["+o.Status+"]")
+			d := o.Detail
+			if len(d) > 200 {
+				d = d[:200] + "…"
+			}
+			fresh = append(fresh, k+" ["+o.Status+": "+d+"]")
 			if strings.Contains(k, ct.Expect) {
 				hit = true
 			}
